@@ -372,7 +372,7 @@ func c16() []*Ob {
 					for _, l := range CallsIn(ctor, Callee("proxy/search.lessFuncPosBased")) {
 						var idsParam ssa.Value
 						for _, p := range ctor.Params {
-							if p.Name() == "ids" {
+							if ParamName(p) == "ids" {
 								idsParam = p
 							}
 						}
